@@ -3417,6 +3417,9 @@ class x86_mn(x86_mn_base):
                 if rmr in dibs and not x86_afs.imm in a and a[x86_afs.ad] == False:
                     log.info("No register should be encoded here")
                     continue
+                if c.name in mnemo_mem_only and a[x86_afs.ad] == False:
+                    # memory operand only (the decoder rejects mod == 3)
+                    continue
                 if a[x86_afs.ad]:
                     size = a[x86_afs.ad]
                     if c.name in ("fxsave", "fxrstor", "ldmxcsr", "stmxcsr",
@@ -3502,6 +3505,10 @@ class x86_mn(x86_mn_base):
                     continue
                 if not a2[x86_afs.ad] and x86_afs.imm in a2:
                     log.debug('Imm in rmr 2')
+                    continue
+                if c.name in mnemo_mem_only and \
+                        [a2, a1][not swap_args][x86_afs.ad] == False:
+                    # memory operand only (the decoder rejects mod == 3)
                     continue
 
                 size = [ a2[x86_afs.size], a1[x86_afs.size] ]
